@@ -35,6 +35,9 @@ def gen_block(rng, name, natoms=None, nrexcl=None):
                 if rng.random() < 0.2 and sec in ('bonds', 'constraints'):
                     meta = {rng.choice(['ifdef', 'ifndef']): 'FLEXIBLE'}
                 rows.append({'atoms': idx, 'params': params, 'meta': meta})
+                # a second term on the same atoms without an explicit version (multi-term dihedral)
+                if sec == 'dihedrals' and rng.random() < 0.3:
+                    rows.append({'atoms': list(idx), 'params': [FUNC[sec]] + [f'{rng.uniform(0.1, 9):.3f}' for _ in range(2)], 'meta': {}})
             inters[sec] = rows
     # make the block connected through bonds so that the residue is one fragment
     if natoms > 1:
